@@ -233,7 +233,9 @@ var riPaths = []riPath{
 		}
 		return router_identity.NewRouterIdentityFromKeysAndCert(k)
 	}},
-	{"NewRouterIdentity", func(id []byte, _, _ int, _ uint64) (*router_identity.RouterIdentity, error) { return riFromParts(id, false) }},
+	{"NewRouterIdentity", func(id []byte, _, _ int, _ uint64) (*router_identity.RouterIdentity, error) {
+		return riFromParts(id, false)
+	}},
 	{"NewRouterIdentityWithCompressiblePadding", func(id []byte, _, _ int, _ uint64) (*router_identity.RouterIdentity, error) {
 		return riFromParts(id, true)
 	}},
